@@ -174,6 +174,10 @@ theorem unrolled_factory_arity :
     U9.factoryArity = some 9 ∧ U10.factoryArity = some 10 ∧ U11.factoryArity = some 11 ∧ U12.factoryArity = some 12 ∧
     ∀ n, D.factoryArity n = none :=
   ⟨rfl, rfl, rfl, rfl, rfl, rfl, rfl, rfl, rfl, rfl, rfl, rfl, fun _ => rfl⟩
+/-- The generic class (primary template, every n — the sizes 13…16 and the `staticSize` instantiations):
+`createConstant(nVars, c)` / `createVariable(nVars, c, k)` accept exactly nVars = n, like every
+specialisation (before fix 8f428cec0 the guard read `nVars != 0`). -/
+theorem generic_factory_arity (n : Nat) : L.factoryArity n = some (n : Int) := rfl
 end anytype2
 
 section ordered
